@@ -284,14 +284,17 @@ def make_function(n, env, is_async=False):
     """exec-generate the node's callable (keyword-only params so defaults may sit anywhere)."""
     import hypergraph as hg
 
-    params = list(n["inputs"])
-    dflt = n.get("defaults", {})
+    cur = list(n["inputs"])
+    # via_rename: the function is written with other parameter names (orig) and the node is derived from it by
+    # with_inputs(orig -> current); the log is keyed by the current names, as the model sees them
+    params = list(n["via_rename"]["orig"]) if n.get("via_rename") and n["kind"] == "func" else cur
+    dflt = {params[i]: v for i, c in enumerate(cur) for k, v in n.get("defaults", {}).items() if k == c}
     sig = ", ".join(f"{p}={_py(dflt[p])}" if p in dflt else p for p in params)
     fname = "fn_" + n["name"]
     wrap = is_async and n.get("wrap_sync")
     inner_name = fname + "_inner" if wrap else fname
     head = f"{'async ' if is_async else ''}def {inner_name}({'*, ' + sig if params else ''}):\n"
-    body = f"    _log.append(({n['name']!r}, dict({', '.join(f'{p}={p}' for p in params)})))\n"
+    body = f"    _log.append(({n['name']!r}, dict({', '.join(f'{c}={p}' for c, p in zip(cur, params))})))\n"
     if is_async:
         body += f"    await _ts.enter({n['name']!r})\n"
     body += _fn_body(n["fn"], params, len(n.get("outputs", [])))
@@ -327,7 +330,13 @@ def build_node(n, env, is_async=False):
     if kind == "func":
         f = make_function(n, env, is_async)
         out = tuple(outs) if len(outs) > 1 else (outs[0] if outs else None)
-        return FunctionNode(f, name=n["name"], output_name=out, emit=emit, wait_for=wait, cache=n.get("cache", False))
+        fnode = FunctionNode(f, name=n["name"], output_name=out, emit=emit, wait_for=wait, cache=n.get("cache", False))
+        vr = n.get("via_rename")
+        if vr:
+            if vr.get("touch"):
+                _touch_node(fnode, env)
+            fnode = fnode.with_inputs({o: c for o, c in zip(vr["orig"], n["inputs"]) if o != c})
+        return fnode
     if kind == "ifelse":
         f = make_function(n, env, False)
         return IfElseNode(f, when_true=tgt(n["when_true"]), when_false=tgt(n["when_false"]), name=n["name"],
